@@ -27,10 +27,10 @@ AFFINE = [(0.5, -3.0), (2.0, 0.25), (3.0, 100.0)]
 def bounds(tier):
     if tier == "quick":
         return {"tie_free_max": [4, 4], "all_types_max": [3, 3],
-                "easy": [[0, 0], [1, 0], [0, 1], [2, 3], [3, 3], [5, 0], [0, 5]], "grids": ["irregular", "dyadic", "uint"]}
+                "easy": [[0, 0], [1, 0], [0, 1], [2, 3], [3, 3], [5, 0], [0, 5]], "grids": ["irregular", "dyadic", "uint", "int8"]}
     return {"tie_free_max": [6, 6], "all_types_max": [4, 4],
             "easy": [[0, 0], [1, 0], [0, 1], [2, 3], [3, 3], [5, 0], [0, 5], [1, 7], [7, 2]],
-            "grids": ["irregular", "dyadic", "int", "uint"]}
+            "grids": ["irregular", "dyadic", "int", "uint", "int8", "int16"]}
 
 
 def work(tier, seed):
@@ -43,6 +43,8 @@ def work(tier, seed):
             items.append({"blocks": [list(x) for x in bl], "grid": g, "tie_free": True})
     for n in (ot.LADDER_QUICK[:5] if tier == "quick" else ot.LADDER_THOROUGH[:-2]):
         items.append({"ladder": n})
+    for n in ((3000,) if tier == "quick" else (500, 3000, 20000)):
+        items.append({"inverted": n})
     P, Q = b["all_types_max"]
     for bl in ot.order_types(P, Q, 1, 1):
         if bl in seen:
@@ -62,6 +64,43 @@ def run(item, ctx, tier, seed):
     from score_analysis import Scores
 
     b = bounds(tier)
+    if "inverted" in item:
+        # every hard positive on the wrong side of every hard negative, hard fractions of the two classes nearly
+        # (but not exactly) equal: the edge-of-hard-samples branch of the EER search
+        n = item["inverted"]
+        for rel in (5e-4, -5e-4, 2e-5, 0.0, 0.3):
+            hp, hn = n, n + 15
+            all_p = 50 * n
+            all_n = int(round(hn / (hp / all_p * (1 + rel))))
+            for cfg in ot.CFGS:
+                lowv = [0.5 * i for i in range(hp)]
+                highv = [0.5 * i + 0.5 * hp + 7 for i in range(hn)]
+                pos, neg = (lowv, highv) if cfg[0] == "pos" else (highv, lowv)
+                if len(pos) != hp:
+                    pos, neg = pos[:hp] if len(pos) > hp else pos, neg
+                ep, en = all_p - len(pos), all_n - len(neg)
+                if min(ep, en) < 0:
+                    continue
+                case = {"inverted_n": n, "relative_difference_of_hard_fractions": rel, "cfg": cfg, "easy": [ep, en],
+                        "n_pos": len(pos), "n_neg": len(neg)}
+                ctx.state()
+                ok, s = guarded(ctx, "construct", case, Scores, pos, neg, nb_easy_pos=ep, nb_easy_neg=en, score_class=cfg[0], equal_class=cfg[1])
+                if not ok:
+                    continue
+                ok, res = guarded(ctx, "eer", case, s.eer)
+                ctx.tick()
+                ctx.nontrivial()
+                if not ok:
+                    continue
+                t, e = float(res[0]), float(res[1])
+                fpr, fnr = float(s.fpr(t)), float(s.fnr(t))
+                NP, NN = len(pos) + ep, len(neg) + en
+                if not (abs(fpr - e) <= 1.0 / NN + 1e-9 and abs(fnr - e) <= 1.0 / NP + 1e-9 and e <= min(len(pos) / NP, len(neg) / NN) + 1e-12):
+                    ctx.fail("crossing-point-on-large-dataset", case, observed={"t": t, "eer": e, "fpr": fpr, "fnr": fnr,
+                                                                               "fpr_off_by_samples": abs(fpr - e) * NN, "fnr_off_by_samples": abs(fnr - e) * NP},
+                             expected="within one sample, capped by the hard fractions")
+        ctx.sample({"inverted_n": n})
+        return None
     if "ladder" in item:
         n = item["ladder"]
         pos, neg = ot.ladder_dataset(n, True, seed)
@@ -88,7 +127,19 @@ def run(item, ctx, tier, seed):
         ctx.sample({"ladder_n": n})
         return None
     blocks = [tuple(x) for x in item["blocks"]]
-    pos, neg, vals = ot.concretise(blocks, item["grid"], seed)
+    if item["grid"] in ("int8", "int16"):
+        # narrow signed integers of both signs, gaps wider than the positive range of the dtype
+        wide = [-100, -90, -75, -20, 30, 60, 100, 110, 120, 125] if item["grid"] == "int8" else \
+               [-30000, -20000, -7, 5, 9000, 20000, 30000, 32000, 32500, 32700]
+        vals = wide[: len(blocks)] if len(blocks) <= len(wide) else list(range(len(blocks)))
+        if len(blocks) <= 3:
+            vals = [wide[0], wide[-2], wide[-1]][: len(blocks)] if len(blocks) > 1 else [wide[0]]
+        pos, neg = [], []
+        for v, (a, c) in zip(vals, blocks):
+            pos += [v] * a
+            neg += [v] * c
+    else:
+        pos, neg, vals = ot.concretise(blocks, item["grid"], seed)
     tie_free = item["tie_free"]
     rng_ = max(max(vals) - min(vals), 1.0)
     for cfg in ot.CFGS:
@@ -98,10 +149,11 @@ def run(item, ctx, tier, seed):
         for ep, en in [tuple(e) for e in b["easy"]]:
             case = {"blocks": item["blocks"], "grid": item["grid"], "pos": pos, "neg": neg, "cfg": cfg,
                     "easy": [ep, en]}
-            if item["grid"] == "uint":
+            if item["grid"] in ("uint", "int8", "int16"):
                 import numpy as np
 
-                pin, nin = np.array(pos[::-1], dtype=np.uint8), np.array(neg[::-1], dtype=np.uint8)
+                dt_ = {"uint": np.uint8, "int8": np.int8, "int16": np.int16}[item["grid"]]
+                pin, nin = np.array(pos[::-1], dtype=dt_), np.array(neg[::-1], dtype=dt_)
             else:
                 pin, nin = pos[::-1], neg[::-1]
             ok, s = guarded(ctx, "construct", case, Scores, pin, nin, nb_easy_pos=ep, nb_easy_neg=en,
@@ -154,7 +206,7 @@ def run(item, ctx, tier, seed):
             if not e <= cap + 1e-12:
                 ctx.fail("eer-capped-by-hard-fractions", case, observed=e, expected=cap, snippet=snip)
             # affine images
-            if item["grid"] not in ("int", "uint"):
+            if item["grid"] not in ("int", "uint", "int8", "int16"):
                 for a_, b_ in AFFINE:
                     apos, aneg = [a_ * x + b_ for x in pos], [a_ * x + b_ for x in neg]
                     ok, sa = guarded(ctx, "affine-construct", dict(case, a=a_, b=b_), Scores, apos, aneg,
